@@ -68,8 +68,11 @@ def model_execute(case, stats):
     nodes = case["ast"]
     source = PL.render(nodes, ws=G.cycle(case["ws"]))
     p = lib(c2profile.C2Profile.from_text, source, what="from_text")
+    if len(source) % 2:
+        lib(p.as_text, what="as_text before as_dict")  # regenerating text first must not change the view
     d = as_dict_of(p)
     model, loose = compare_model(d, nodes)
+    eq(as_dict_of(p), d, "dict:not_repeatable", "second as_dict() call")
     eq(lib(lambda: p.properties), d, "dict:properties_alias", "properties == as_dict()")
     n = G.count_statements(nodes)
     has_list = any(k in PL.LIST_PATHS for k in model)
